@@ -25,7 +25,7 @@ EXTENDS Naturals, Sequences, FiniteSets, TLC
 CONSTANTS
     Clients, Users, Pws, Sets,
     Default,          \* configured default parameter-set
-    PolicyOK,         \* passwords that satisfy the configured policy
+    PolicyOK,         \* "user/password" pairs that satisfy the configured policy (zxcvbn looks at the user name too)
     Cap,              \* capacity of each request channel (10 in the code)
     NCap,             \* capacity of hooks.Notify (32 in the code)
     UCap, SemCap,     \* remote upgrader: channel capacity and semaphore (10 / 10 in the code)
@@ -48,6 +48,8 @@ VARIABLES
     owed       \* ghost: successful writes whose notification has not been sent yet (C19)
 
 vars == <<chans, disp, files, cl, notifyQ, upq, sem, ack, owed>>
+
+PolicyPass(u, p) == (u \o "/" \o p) \in PolicyOK
 
 NoFile == [present |-> FALSE, pw |-> "", set |-> 0, adm |-> FALSE]
 File(p, s, a) == [present |-> TRUE, pw |-> p, set |-> s, adm |-> a]
@@ -79,14 +81,14 @@ Exec(fs, op, isUpgrade) ==
              res |-> [ok |-> AuthOK(fs, op.u, op.p), adm |-> AuthOK(fs, op.u, op.p) /\ fs[op.u].adm,
                       upg |-> AuthOK(fs, op.u, op.p) /\ fs[op.u].set # Default, list |-> {}]]
       [] op.k = "update" ->
-            IF /\ op.p \in PolicyOK
+            IF /\ PolicyPass(op.u, op.p)
                /\ fs[op.u].present
                /\ (isUpgrade /\ UpgradeRecheck) => (AuthOK(fs, op.u, op.p) /\ fs[op.u].set # Default)
             THEN [files |-> [fs EXCEPT ![op.u] = File(op.p, Default, @.adm)], mut |-> TRUE,
                   res |-> [NoRes EXCEPT !.ok = TRUE]]
             ELSE [files |-> fs, mut |-> FALSE, res |-> NoRes]
       [] op.k = "add" ->
-            IF op.p \in PolicyOK /\ ~fs[op.u].present
+            IF PolicyPass(op.u, op.p) /\ ~fs[op.u].present
             THEN [files |-> [fs EXCEPT ![op.u] = File(op.p, Default, op.a)], mut |-> TRUE,
                   res |-> [NoRes EXCEPT !.ok = TRUE]]
             ELSE [files |-> fs, mut |-> FALSE, res |-> NoRes]
@@ -272,7 +274,7 @@ UpgradeOnlyAfterLogin ==   \* an upgrade request is only ever sent right after a
 (* C17: nothing is written with a password that fails the policy            *)
 NoWriteWithoutPolicy ==
     [][\A u \in Users : (files'[u] # files[u] /\ files'[u].present /\ files'[u].pw # files[u].pw)
-                            => files'[u].pw \in PolicyOK]_vars
+                            => PolicyPass(u, files'[u].pw)]_vars
 
 (* C19 (agent side): exactly one notification per successful mutation       *)
 NotifyMatchesMutations == owed \in {0, 1} /\ (owed = 1 <=> disp.pc = "notify")
@@ -281,5 +283,5 @@ NotifyAllWhenIdle == disp.pc = "idle" => owed = 0
 (* C12 liveness: on an agent with no writers the upgrade does happen       *)
 LoginConverges ==
     \A u \in Users : [](( /\ Mode = "local" /\ disp.pc = "upsend" /\ disp.req.op.u = u
-                           /\ disp.req.op.p \in PolicyOK) => <>(files[u].set = Default))
+                           /\ PolicyPass(u, disp.req.op.p)) => <>(files[u].set = Default))
 =============================================================================
